@@ -132,6 +132,15 @@ impl Word {
         self.init = NO_BITS;
     }
 }
+/// Verification hook (compiled only with `--cfg endorpersand_lc3_ensemble_verif`).
+#[cfg(endorpersand_lc3_ensemble_verif)]
+impl Word {
+    /// Reads the initialization mask of this word (bit set = bit is initialized).
+    #[doc(hidden)]
+    pub fn verif_init_mask(&self) -> u16 {
+        self.init
+    }
+}
 impl From<u16> for Word {
     /// Creates a fully initialized word.
     fn from(value: u16) -> Self {
